@@ -6,7 +6,7 @@
    nesting depth, errors included (C02_render_refines_deep_merge below); the same specification
    is the oracle of the correspondence run. *)
 From RV Require Import Model.Mapping Model.Yaml Model.Interp Model.Run Spec.DeepMerge Proofs.MappingFacts Proofs.MergeFacts
-     Proofs.DeepMergeFacts Proofs.YamlFacts Proofs.Refinement Proofs.WfFacts Proofs.Twin Proofs.TwinStack.
+     Proofs.DeepMergeFacts Proofs.YamlFacts Proofs.Refinement Proofs.WfFacts Proofs.Twin Proofs.Unrender Proofs.Inline Proofs.TwinStack.
 
 Theorem C02_null_replaces_anything : forall ck self, value_merge ck self VNull = Ok VNull.
 Proof. exact merge_null_replaces. Qed.
@@ -94,8 +94,9 @@ Eval cbv in "ASSUMPTIONS-OF C02_render_refines_deep_merge"%string. Print Assumpt
 
 (** With C04, for stacks that DO contain references: [ytw m y y'] relates two YAML documents that
     are equal except that, anywhere, reference strings of [y] are replaced in [y'] by a document
-    converting to a closed value the reference renders to against the merged parameters [m]
-    ([denotes]).  The render of the stack is the render of its inlined twin, with the same fuel;
+    that spells what the reference renders to against the merged parameters [m] ([denotes]) the
+    way a document does -- strings as plain strings ([lw]).  The render of the stack is the render
+    of its inlined twin (one more unit of the model's fuel);
     and when the twin is in the domain of the refinement theorem (reference-free), it is the
     specification's deep merge of the twin: the value agrees, and the specification reports no
     conflict and no constant violation. *)
@@ -104,7 +105,7 @@ Theorem C02_stack_with_references_renders_as_its_inlined_twin :
     Forall clean_layer ys -> Forall clean_layer ys' ->
     merge_layers_try ys = Ok m -> Forall2 (ytw m) ys ys' ->
     render_with_self F (VMap m) = Ok r ->
-    exists m', merge_layers_try ys' = Ok m' /\ render_with_self F (VMap m') = Ok r.
+    exists m', merge_layers_try ys' = Ok m' /\ render_with_self (S F) (VMap m') = Ok r.
 Proof. exact stack_renders_as_its_inlined_twin. Qed.
 Eval cbv in "ASSUMPTIONS-OF C02_stack_with_references_renders_as_its_inlined_twin"%string. Print Assumptions C02_stack_with_references_renders_as_its_inlined_twin.
 
@@ -138,7 +139,7 @@ Proof.
   - constructor; [apply ytw_refl|]. constructor; [|constructor; [apply ytw_refl | constructor]].
     apply ytw_map_iff. eexists. split; [reflexivity|]. constructor; [|constructor]. split; [reflexivity|]. cbn [snd].
     apply ytw_map_iff. eexists. split; [reflexivity|]. constructor; [|constructor]. split; [reflexivity|]. cbn [snd].
-    right. eexists. split; [vm_compute; reflexivity|].
+    right. eexists. eexists. split; [vm_compute; reflexivity|]. split; [|apply lw_refl].
     eapply (denotes_of_render _ _ "${h}" 40 st0). vm_compute. reflexivity.
   - split; [vm_compute; reflexivity|]. split; vm_compute; reflexivity.
   Unshelve. cbn. repeat split; repeat constructor; cbn; intuition discriminate.
